@@ -5,8 +5,20 @@
 From Coq Require Import ZArith List String Bool.
 Import ListNotations.
 Require Import Verif.lib.PyLite Verif.gen.ReachGen Verif.gen.ReachDispGen Verif.lib.Reach Verif.lib.ReachProofs
-  Verif.lib.ReachDeep Verif.lib.ReachDeepProofs.
+  Verif.lib.ReachDeep Verif.lib.ReachDeepProofs Verif.lib.ReachPipe Verif.lib.ReachPipeProofs.
 Local Open Scope Z_scope.
+
+(* SCOPE OF THE ONE-STEP THEOREMS BELOW (review 2, item 1).  `step w st (Msg ..)` of lib/Reach.v looks the id up and delivers the
+   call in ONE step.  The code does not: CallUnslicer resolves the id to the object while the bytes are PARSED, the method runs
+   when Broker.doNextCall DELIVERS the queued InboundDelivery in a later reactor turn.  Every theorem below that speaks about
+   `step .. (Msg ..)`, `run`, `xstep .. (XMsg ..)` therefore describes a call that arrives while nothing is queued on its
+   connection and is delivered before the next call is parsed (one call per segment and turn; C06_atomic_is_parse_then_deliver
+   makes that precise).  They do NOT transfer to calls pipelined in one segment.  The general statements -- over ALL
+   interleavings of parses and delivery turns -- are in the section "parse and delivery are two steps" at the end of this file:
+   C06_calls_pipelined, C06_exports_were_granted_pipelined, C06_sent_justified_pipelined, C06_classes_pipelined,
+   C06_translated_history_pipelined; what is FALSE in general is C06_held_at_delivery_refuted.  The statements about one call's
+   PARSE given the tables at that moment (obj_call / xobj_call: C06_translated_dispatch, C06_delivered_values_justified,
+   C06_classes_any_arguments, C06_proxies_and_dials_justified, C06_unheld_id_inert, C06_gift_gate) are unaffected. *)
 
 (* "a peer can cause code to run only on (a) [the broker's name lookup / release entry points: id 0] ... (b) objects that
    were explicitly sent to it over that same connection and not yet released, and only through methods exposed for
@@ -92,12 +104,44 @@ Print Assumptions C06_names_origin.
 
 (* ... so a name that was only ever served by a handler stops resolving -- on every connection -- as soon as the handler
    stops serving it (Revoke / HandlerOff), however often it was looked up before and although the object is still alive *)
+(* n <> "": names_event's third clause lets the model's placeholder name "" enter the table through any name lookup (see
+   lib/ReachProofs.v names_event and the witness empty_name_enters_by_lookup); nothing is claimed about the name "". *)
 Theorem C06_revoked_name_refused : forall w h st n,
   st = fst (run w init h) -> n <> ""%string ->
   (forall e, In e h -> forall o, ~ names_event n o e) -> sget n (s_h st) = None ->
   lookup_name w st n = None.
 Proof. exact revoked_name_refused. Qed.
 Print Assumptions C06_revoked_name_refused.
+
+(* tub.unregisterReference REVOKES a registered name (review 2, item 2; a model whose Unregister is a no-op violates it): for an
+   object registered under n, afterwards the name table has no entry for n, the object has no name, only the lookup handler could
+   still answer n, every other name resolves as before, no connection's table changes ... *)
+Theorem C06_unregister_revokes : forall w st o n,
+  zget o (s_r2n st) = Some n -> is_some (sget n (s_n2r st)) = true ->
+  let st' := fst (step w st (Unregister o)) in
+  sget n (s_n2r st') = None /\ zget o (s_r2n st') = None /\ lookup_name w st' n = sget n (s_h st) /\
+  (forall n', n' <> n -> lookup_name w st' n' = lookup_name w st n') /\
+  s_a st' = s_a st /\ s_b st' = s_b st.
+Proof. exact unregister_revokes. Qed.
+Print Assumptions C06_unregister_revokes.
+
+(* ... and the name stays refused on every connection, whatever happens afterwards, until the application publishes it again or
+   its handler serves it *)
+Theorem C06_unregistered_name_stays_refused : forall w st o n h,
+  zget o (s_r2n st) = Some n -> is_some (sget n (s_n2r st)) = true -> n <> ""%string ->
+  (forall e, In e h -> forall o', ~ names_event n o' e) ->
+  let st2 := fst (run w (fst (step w st (Unregister o))) h) in
+  sget n (s_h st2) = None -> lookup_name w st2 n = None.
+Proof. exact unregistered_name_stays_refused. Qed.
+Print Assumptions C06_unregistered_name_stays_refused.
+
+(* the excluded region (is_some (sget n (s_n2r st)) = false): an object only the lookup HANDLER ever answered; unregisterReference
+   does nothing there (the code raises KeyError) and the name resolves for as long as the handler serves it (C06_revoked_name_refused) *)
+Theorem C06_unregister_handler_name_refuted :
+  exists w st o n, zget o (s_r2n st) = Some n /\ is_some (sget n (s_n2r st)) = false /\
+                   lookup_name w (fst (step w st (Unregister o))) n = Some o.
+Proof. exact unregister_handler_name_refuted. Qed.
+Print Assumptions C06_unregister_handler_name_refuted.
 
 (* "unguessable": names the Tub invents carry NAMEBITS (translated: 160) >= 128 bits, all of them taken from the OS entropy
    source (translated: generateSwissnumber is base32 of os.urandom(bits // 8) and nothing else; any other source fails closed).
@@ -338,3 +382,101 @@ Theorem C06_refusal_pure_full_refuted :
     get_yours x c = [] /\ get_yours x' c = [5] /\ xr_dial r = [(1, UForeign)] /\ r_inst (xr_core r) = [-1].
 Proof. exact refusal_pure_full_refuted. Qed.
 Print Assumptions C06_refusal_pure_full_refuted.
+
+(* ============================== review 2: parse and delivery are two steps ==============================
+   lib/ReachPipe.v: `PE (Msg ..)` PARSES a call (id -> object, interface, arguments; a resolved call is appended to the
+   connection's FIFO queue with the RESOLVED object), `PDeliver c` is one turn of Broker.doNextCall (the head of c's queue runs:
+   the method is entered, remote_decref / remote_getReferenceByName take effect NOW; the getattr of doRemoteCall happens here too: a
+   call resolved to an object that lacks "remote_"+name is queued with d_ok = false and its turn fails the request); a dropped
+   connection abandons its queue.
+   Histories are arbitrary interleavings of parses, delivery turns and all other events, on both connections. *)
+
+(* "a peer can cause code to run only on (a) ... (b) objects that were explicitly sent to it over that same connection and not
+   yet released, and only through methods exposed for remote use" -- the HONEST statement: whatever any delivery enters was
+   resolved by the parse of a call that arrived earlier on the same connection, and AT THAT MOMENT (state after the prefix h1)
+   the connection was alive and the call was addressed to id 0 with one of the three RIBroker methods, or to an id its export
+   table held then, through "remote_"+name, present, and part of the interface the object exposed then. *)
+Theorem C06_calls_pipelined : forall w h ps rs r e,
+  prun w pinit h = (ps, rs) -> In r rs -> pr_out r = Out (Enter e) ->
+  exists h1 h2 c req clid m args,
+    h = h1 ++ PE (Msg c req clid m args) :: h2 /\ In (PDeliver c) h2 /\
+    let st := p_st (fst (prun w pinit h1)) in
+    c_alive (get_conn st c) = true /\
+    ((clid = 0 /\ exists s, m = MStr s /\ In s broker_methods /\ e = EBroker (remote_prefix ++ s)) \/
+     (clid < 0 /\ exists o, exported st c clid o /\ e = ECallable o) \/
+     (0 < clid /\ exists o s, exported st c clid o /\ m = MStr s /\ e = EObj o (remote_prefix ++ s) /\
+          In (remote_prefix ++ s)%string (o_attrs (w_obj w o)) /\
+          (forall l, iface_of w (s_decl st) o = Some l -> In s l))).
+Proof. exact pipe_calls. Qed.
+Print Assumptions C06_calls_pipelined.
+
+(* ... and code is entered by delivery turns only, namely what the head of that connection's queue was resolved to *)
+Theorem C06_entered_by_delivery_only : forall w ps pe ps' r e,
+  pstep w ps pe = (ps', r) -> pr_out r = Out (Enter e) ->
+  exists c d q, pe = PDeliver c /\ pq ps c = d :: q /\ d_ent d = e /\ c_alive (get_conn (p_st ps) c) = true /\ d_ok d = true.
+Proof. exact pstep_enter. Qed.
+Print Assumptions C06_entered_by_delivery_only.
+
+(* FALSE in general (and false of the real code; replayed by the harness, signature oracle/released-id-entered-when-pipelined):
+   "the id is held when the method is ENTERED".  The peer is granted an object, then sends decref and a call to it in one
+   segment; both are parsed before either is delivered, and remote_hi runs on an object whose id is no longer in the table. *)
+Theorem C06_held_at_delivery_refuted :
+  exists w h1 ps1 rs1 ps2 r,
+    prun w pinit h1 = (ps1, rs1) /\ pstep w ps1 (PDeliver CA) = (ps2, r) /\
+    pr_out r = Out (Enter (EObj 1 "remote_hi")) /\
+    c_exports (get_conn (p_st ps1) CA) = [] /\ c_alive (get_conn (p_st ps1) CA) = true.
+Proof. exact held_at_delivery_refuted. Qed.
+Print Assumptions C06_held_at_delivery_refuted.
+
+(* every state the two-step machine reaches is a state of lib/Reach.v (each delivery changes the tables exactly as the broker
+   call it stands for, taken at delivery time), so the table invariants hold over all schedules:
+   "explicitly sent to it over that same connection and not yet released" *)
+Theorem C06_exports_were_granted_pipelined : forall w h ps rs c clid o rc,
+  prun w pinit h = (ps, rs) -> zget clid (c_exports (get_conn (p_st ps) c)) = Some (o, rc) ->
+  0 < rc /\ clid <> 0 /\ Z.abs clid < c_next (get_conn (p_st ps) c) /\ In (c, clid, o) (psent_of rs).
+Proof. exact pipe_exports_were_granted. Qed.
+Print Assumptions C06_exports_were_granted_pipelined.
+
+Theorem C06_negative_ids_are_callables_pipelined : forall w h ps rs c k o rc,
+  prun w pinit h = (ps, rs) -> zget k (c_exports (get_conn (p_st ps) c)) = Some (o, rc) ->
+  (k < 0 -> o_kind (w_obj w o) = KCallable) /\ (0 < k -> o_kind (w_obj w o) = KObj).
+Proof. exact pipe_kinds_reachable. Qed.
+Print Assumptions C06_negative_ids_are_callables_pipelined.
+
+(* a my-reference is emitted only when the application sends the object, or when a name lookup is DELIVERED and the name
+   resolves at that moment *)
+Theorem C06_sent_justified_pipelined : forall w ps pe ps' r c clid o,
+  pstep w ps pe = (ps', r) -> In (c, clid, o) (pr_sent r) ->
+  (exists sw, pe = PE (Grant c o sw)) \/
+  (pe = PDeliver c /\ exists d q n, pq ps c = d :: q /\ d_fx d = FxLookup n /\ d_req d <> 0 /\ lookup_name w (p_st ps) n = Some o).
+Proof. exact pipe_sent_justified. Qed.
+Print Assumptions C06_sent_justified_pipelined.
+
+(* instances are created while a call is parsed, only of classes registered at that moment under the names the call carries *)
+Theorem C06_classes_pipelined : forall w ps pe ps' r cls,
+  pstep w ps pe = (ps', r) -> In cls (pr_inst r) ->
+  exists c req clid m args n, pe = PE (Msg c req clid m args) /\ In (ACopyable n) args /\ sget n (s_copy (p_st ps)) = Some cls.
+Proof. exact pipe_classes. Qed.
+Print Assumptions C06_classes_pipelined.
+
+(* the two-step machine built from the TRANSLATED dispatcher, remote_decref, _assignName and getReferenceForName is this machine,
+   on every schedule *)
+Theorem C06_translated_history_pipelined : forall w h, prun_T w pinit h = prun w pinit h.
+Proof. exact prun_T_eq. Qed.
+Print Assumptions C06_translated_history_pipelined.
+
+(* what lib/Reach.v's one-step `step (Msg ..)` IS: the parse followed at once by a delivery turn, on a connection with nothing
+   queued -- same tables, same instantiations, same references sent, same thing entered (a refusal comes from the parse, or --
+   missing attribute -- from the delivery turn) *)
+Theorem C06_atomic_is_parse_then_deliver : forall w ps c req clid m args ps1 r1 ps2 r2 st' r,
+  pq ps c = [] ->
+  pstep w ps (PE (Msg c req clid m args)) = (ps1, r1) -> pstep w ps1 (PDeliver c) = (ps2, r2) ->
+  step w (p_st ps) (Msg c req clid m args) = (st', r) ->
+  p_st ps2 = st' /\ (forall c', pq ps2 c' = pq ps c') /\ r_inst r = pr_inst r1 /\ r_sent r = pr_sent r2 /\ pr_sent r1 = [] /\
+  match r_out r with
+  | Enter e => pr_out r1 = Queued /\ pr_out r2 = Out (Enter e)
+  | Reject => (pr_out r1 = Out Reject /\ pr_out r2 = Idle) \/ (pr_out r1 = Queued /\ pr_out r2 = Out Reject)
+  | o => pr_out r1 = Out o /\ pr_out r2 = Idle
+  end.
+Proof. exact atomic_msg. Qed.
+Print Assumptions C06_atomic_is_parse_then_deliver.
